@@ -142,8 +142,10 @@ pub fn clone_panic_at(k: i64) { CLONE_PANIC_AT.with(|c| c.set(k)); }
 pub fn reset_clone_counter() { unsafe { NEXT_CLONE = 1_000_000; } }
 
 /// An 8-byte, 4-aligned payload with an identity, a mutable value, and logged drop/clone.
+#[cfg(not(feature = "t_zst"))]
 #[repr(C)]
 pub struct Tracked { pub id: u32, pub val: u32 }
+#[cfg(not(feature = "t_zst"))]
 impl Tracked {
     pub fn new(id: u32, val: u32) -> Self { id_set(id as u64, true); Tracked { id, val } }
     /// read (id, val) checking that this is a live tracked value (not poison / uninit / dropped)
@@ -151,7 +153,9 @@ impl Tracked {
         if id_state(self.id as u64) != Some(true) { push_ev(Ev::BadRead(self.id as u64)); }
         (self.id, self.val)
     }
+    pub fn set_val(&mut self, v: u32) { self.val = v; }
 }
+#[cfg(not(feature = "t_zst"))]
 impl Drop for Tracked {
     fn drop(&mut self) {
         match id_state(self.id as u64) {
@@ -161,6 +165,7 @@ impl Drop for Tracked {
         }
     }
 }
+#[cfg(not(feature = "t_zst"))]
 impl Clone for Tracked {
     fn clone(&self) -> Self {
         let k = CLONE_PANIC_AT.with(|c| c.get());
@@ -170,6 +175,31 @@ impl Clone for Tracked {
         let nid = unsafe { let n = NEXT_CLONE; NEXT_CLONE += 1; n };
         push_ev(Ev::Clone(id as u64, nid));
         Tracked::new(nid as u32, val)
+    }
+}
+
+/// `--features t_zst`: the same payload as a ZERO-SIZED type (no identity, no value: destructor and
+/// clone runs are still logged, as `drop:0` / `clone:0>n`).  The history model is generic in the
+/// values, so every count, verdict, allocation identity and event *count* must carry over.
+#[cfg(feature = "t_zst")]
+pub struct Tracked;
+#[cfg(feature = "t_zst")]
+impl Tracked {
+    pub fn new(_id: u32, _val: u32) -> Self { Tracked }
+    pub fn read(&self) -> (u32, u32) { (0, 0) }
+    pub fn set_val(&mut self, _v: u32) {}
+}
+#[cfg(feature = "t_zst")]
+impl Drop for Tracked { fn drop(&mut self) { push_ev(Ev::Drop(0)); } }
+#[cfg(feature = "t_zst")]
+impl Clone for Tracked {
+    fn clone(&self) -> Self {
+        let k = CLONE_PANIC_AT.with(|c| c.get());
+        if k == 0 { CLONE_PANIC_AT.with(|c| c.set(-1)); panic!("scripted clone panic"); }
+        if k > 0 { CLONE_PANIC_AT.with(|c| c.set(k - 1)); }
+        let nid = unsafe { let n = NEXT_CLONE; NEXT_CLONE += 1; n };
+        push_ev(Ev::Clone(0, nid));
+        Tracked
     }
 }
 
